@@ -205,6 +205,78 @@ void h_FromHeader_bounded(void)
 }
 """
 
+
+# ---- the same list semantics with keys of one or two bytes (a key may be a proper prefix of another) on at most 2 members -----------------
+H_COMMON2 = r"""
+#define NMAX 2
+static char xc_kc(void) { char c; __CPROVER_assume(c == 'a' || c == 'b'); return c; }
+static char xc_vc(void) { char c; __CPROVER_assume(c == 'x' || c == 'y'); return c; }
+typedef struct { char b[2]; unsigned long n; } xc_k2;
+static xc_k2 xc_key2(void) { xc_k2 k; k.b[0] = xc_kc(); k.b[1] = xc_kc(); unsigned long n; __CPROVER_assume(n == 1 || n == 2); k.n = n; return k; }
+static bool xc_keq(const xc_k2 *a, const xc_k2 *b) { return a->n == b->n && a->b[0] == b->b[0] && (a->n < 2 || a->b[1] == b->b[1]); }
+static TraceState *xc_build2(unsigned n, xc_k2 *keys, char *vals)
+{
+  TraceState *ts = XC_NEW(TraceState, TraceState_ctor_1_size_t(n));
+  for (unsigned i = 0; i < n; i++)
+  {
+    keys[i] = xc_key2(); vals[i] = xc_vc();
+    for (unsigned j = 0; j < i; j++) __CPROVER_assume(!xc_keq(&keys[j], &keys[i]));
+    string_view k = {keys[i].n, keys[i].b}, v = {1, &vals[i]};
+    KeyValueProperties_AddEntry(ts->kv_properties_.ptr_, k, v);
+  }
+  return ts;
+}
+static bool xc_entry_is2(const TraceState *ts, unsigned i, const xc_k2 *k, char v)
+{
+  const Entry *e = &ts->kv_properties_.ptr_->entries_.ptr_[i];
+  return e->key_.ptr_[0] == k->b[0] && (k->n == 1 ? e->key_.ptr_[1] == 0 : (e->key_.ptr_[1] == k->b[1] && e->key_.ptr_[2] == 0)) && e->value_.ptr_[0] == v && e->value_.ptr_[1] == 0;
+}
+static void xc_init_default(void) { g_default_ts = XC_NEW(TraceState, TraceState_ctor_1_size_t(0)); }
+"""
+H_GETDEL2 = H_COMMON2 + r"""
+void h_Delete_Get_prefix_bounded(void)
+{
+  xc_havoc_ghosts(); xc_init_default();
+  unsigned n; __CPROVER_assume(n <= NMAX);
+  xc_k2 keys[NMAX]; char vals[NMAX];
+  TraceState *ts = xc_build2(n, keys, vals);
+  xc_k2 q = xc_key2();
+  string_view k = {q.n, q.b};
+  xc_str out = {"", 0};
+  bool found = TraceState_Get(ts, k, &out);
+  unsigned present = 0; for (unsigned i = 0; i < n; i++) if (xc_keq(&keys[i], &q)) present = 1;
+  __CPROVER_assert(found == (present != 0), "GET: found exactly when the key is a member (a key that is only a prefix of a member, or extends one, is not)");
+  for (unsigned i = 0; i < n; i++) if (xc_keq(&keys[i], &q)) __CPROVER_assert(found && out.len == 1 && out.data[0] == vals[i], "GET: returns the member's value");
+  TraceState *r = TraceState_Delete(ts, k);
+  unsigned long rs = r->kv_properties_.ptr_->num_entries_;
+  __CPROVER_assert(rs == n - present, "DELETE: exactly the given key is removed");
+  unsigned pos = 0;
+  for (unsigned i = 0; i < n; i++)
+    if (!xc_keq(&keys[i], &q)) { __CPROVER_assert(pos < rs && xc_entry_is2(r, pos, &keys[i], vals[i]), "DELETE: the other members stay, in order"); pos++; }
+  __CPROVER_assert(0, "XC_CANARY end of harness reachable");
+}
+"""
+H_SET2 = H_COMMON2 + r"""
+void h_Set_prefix_bounded(void)
+{
+  xc_havoc_ghosts(); xc_init_default();
+  unsigned n; __CPROVER_assume(n <= NMAX);
+  xc_k2 keys[NMAX]; char vals[NMAX];
+  TraceState *ts = xc_build2(n, keys, vals);
+  xc_k2 q = xc_key2(); char vc = xc_vc();
+  string_view k = {q.n, q.b}, v = {1, &vc};
+  TraceState *r = TraceState_Set(ts, k, v);
+  unsigned present = 0; for (unsigned i = 0; i < n; i++) if (xc_keq(&keys[i], &q)) present = 1;
+  unsigned long rs = r->kv_properties_.ptr_->num_entries_;
+  __CPROVER_assert(rs == n + 1 - present, "SET: one member more for a new key, the same number for an existing key");
+  __CPROVER_assert(rs >= 1 && xc_entry_is2(r, 0, &q, vc), "SET: the given key is first, with the new value");
+  unsigned pos = 1;
+  for (unsigned i = 0; i < n; i++)
+    if (!xc_keq(&keys[i], &q)) { __CPROVER_assert(pos < rs && xc_entry_is2(r, pos, &keys[i], vals[i]), "SET: every other member is kept once, in its previous relative order"); pos++; }
+  __CPROVER_assert(0, "XC_CANARY end of harness reachable");
+}
+"""
+BN2 = "TraceState with at most 2 members, keys of one or two bytes over {a,b} (prefix pairs included), one-byte values; everything inlined, full unwinding"
 BN = "TraceState with at most 3 members, one-byte keys over {a,b,c} and values over {x,y}; everything inlined, full unwinding"
 proofs = [
     Proof("Trim3", [("StringUtil::Trim", 3)], enforce="StringUtil_Trim_3"),
@@ -212,6 +284,8 @@ proofs = [
     Proof("Tokenizer_next", [("KeyValueStringTokenizer::next", 3)], enforce="KeyValueStringTokenizer_next", replace=["string_view_find", "StringUtil_Trim_3"]),
     Proof("Set_bounded", [("TraceState::Set", 2)], harness=H_SET, loop_contracts=False, unwind=7, level="bounded", bound_note=BN, timeout=1200, contracts={"x": {}}),
     Proof("Delete_Get_bounded", [("TraceState::Delete", 1), ("TraceState::Get", 2)], harness=H_DELETE, loop_contracts=False, unwind=7, level="bounded", bound_note=BN, timeout=1200, contracts={"x": {}}),
+    Proof("Delete_Get_prefix_bounded", [("TraceState::Delete", 1), ("TraceState::Get", 2)], harness=H_GETDEL2, loop_contracts=False, unwind=7, level="bounded", bound_note=BN2, timeout=1200, contracts={"x": {}}),
+    Proof("Set_prefix_bounded", [("TraceState::Set", 2)], harness=H_SET2, loop_contracts=False, unwind=7, level="bounded", bound_note=BN2, timeout=1200, contracts={"x": {}}),
     Proof("FromHeader_bounded_q", [("TraceState::FromHeader", 1)],
           harness=H_FROM.replace("h_FromHeader_bounded", "h_FromHeader_bounded_q").replace("bool blank; bool second;", "bool blank = 0; bool second = 1;")
           .replace("char k1 = xc_kc(), k2 = xc_kc()", "char k1 = 'a', k2 = 'b'"), loop_contracts=False, unwind=10, level="bounded",
